@@ -59,22 +59,36 @@ pub struct EncOpts {
 	pub with_bounds: bool,
 	pub shuffle: bool,
 	pub with_index: bool,
+	/// `tiles` is a view over `map` + `images` (as written by tilelive / mapbox tools)
+	pub tiles_as_view: bool,
 }
 impl EncOpts {
 	pub fn random(rng: &mut Rng) -> EncOpts {
-		EncOpts { extra_metadata: rng.chance(0.5), with_bounds: rng.chance(0.5), shuffle: rng.chance(0.5), with_index: rng.chance(0.7) }
+		EncOpts { extra_metadata: rng.chance(0.5), with_bounds: rng.chance(0.5), shuffle: rng.chance(0.5), with_index: rng.chance(0.7), tiles_as_view: rng.chance(0.35) }
 	}
 }
 
 pub fn encode(ts: &TileSet, path: &Path, o: &EncOpts, rng: &mut Rng) -> Result<(), String> {
 	let _ = std::fs::remove_file(path);
 	let mut conn = Connection::open(path).map_err(|e| e.to_string())?;
-	conn.execute_batch(
-		"CREATE TABLE metadata (name TEXT, value TEXT);
-		 CREATE TABLE tiles (zoom_level INTEGER, tile_column INTEGER, tile_row INTEGER, tile_data BLOB);",
-	)
-	.map_err(|e| e.to_string())?;
-	if o.with_index {
+	if o.tiles_as_view {
+		conn.execute_batch(
+			"CREATE TABLE metadata (name TEXT, value TEXT);
+			 CREATE TABLE map (zoom_level INTEGER, tile_column INTEGER, tile_row INTEGER, tile_id TEXT);
+			 CREATE TABLE images (tile_data BLOB, tile_id TEXT);
+			 CREATE UNIQUE INDEX map_index ON map (zoom_level, tile_column, tile_row);
+			 CREATE UNIQUE INDEX images_id ON images (tile_id);
+			 CREATE VIEW tiles AS SELECT map.zoom_level AS zoom_level, map.tile_column AS tile_column, map.tile_row AS tile_row, images.tile_data AS tile_data FROM map JOIN images ON images.tile_id = map.tile_id;",
+		)
+		.map_err(|e| e.to_string())?;
+	} else {
+		conn.execute_batch(
+			"CREATE TABLE metadata (name TEXT, value TEXT);
+			 CREATE TABLE tiles (zoom_level INTEGER, tile_column INTEGER, tile_row INTEGER, tile_data BLOB);",
+		)
+		.map_err(|e| e.to_string())?;
+	}
+	if o.with_index && !o.tiles_as_view {
 		conn.execute_batch("CREATE UNIQUE INDEX tile_index ON tiles (zoom_level, tile_column, tile_row);").map_err(|e| e.to_string())?;
 	}
 	let format = super::format_name(ts.format);
@@ -99,7 +113,14 @@ pub fn encode(ts: &TileSet, path: &Path, o: &EncOpts, rng: &mut Rng) -> Result<(
 	}
 	for (k, v) in keys {
 		let row = (1i64 << k.0) - 1 - k.2 as i64;
-		tx.execute("INSERT INTO tiles VALUES (?1, ?2, ?3, ?4)", params![k.0 as i64, k.1 as i64, row, v]).map_err(|e| e.to_string())?;
+		if o.tiles_as_view {
+			// identical contents share one image row
+			let id = format!("{:016x}{:x}", crate::rng::fnv(v), v.len());
+			tx.execute("INSERT OR IGNORE INTO images VALUES (?1, ?2)", params![v, id]).map_err(|e| e.to_string())?;
+			tx.execute("INSERT INTO map VALUES (?1, ?2, ?3, ?4)", params![k.0 as i64, k.1 as i64, row, id]).map_err(|e| e.to_string())?;
+		} else {
+			tx.execute("INSERT INTO tiles VALUES (?1, ?2, ?3, ?4)", params![k.0 as i64, k.1 as i64, row, v]).map_err(|e| e.to_string())?;
+		}
 	}
 	tx.commit().map_err(|e| e.to_string())?;
 	Ok(())
